@@ -18,10 +18,20 @@ import (
 // Binding A': TLC (NsqdCore) enumerates every interleaving of the critical sections of two operations; the
 // replayer forces each schedule on the real daemon through the verif yield points and observes the outcome.
 
+type earlyRelease struct {
+	After int    `json:"after"` // after this many schedule entries ...
+	Actor string `json:"actor"` // ... this actor is let go without waiting for it (it will block on a lock)
+}
+
 type pairCase struct {
-	OpA   string   `json:"opA"`
-	OpB   string   `json:"opB"`
-	Sched []string `json:"sched"`
+	OpA       string          `json:"opA"`
+	OpB       string          `json:"opB"`
+	OpC       string          `json:"opC"`
+	Situation string          `json:"situation"`
+	Sched     []string        `json:"sched"`
+	Early     []earlyRelease  `json:"early"`
+	Free      []string        `json:"free"`                   // actors that are not gated: they run as the Go scheduler lets them
+	Alts      json.RawMessage `json:"alternatives,omitempty"` // TLC's outcomes for this replay (passed through)
 	// TLC's prediction
 	Crashed bool `json:"crashed"`
 	NIfm    int  `json:"nifm"`
@@ -43,6 +53,8 @@ type pairObs struct {
 	Blocked   string   `json:"blocked,omitempty"`
 	Incon     string   `json:"inconclusive,omitempty"`
 	NIfm      int      `json:"nifm"`
+	NIfm1     int      `json:"nifm1"`
+	NIfm2     int      `json:"nifm2"`
 	NHeap     int      `json:"nheap"`
 	NQ        int64    `json:"nq"`
 	Cnt1      int64    `json:"cnt1"`
@@ -108,6 +120,9 @@ type actor struct {
 	gates    []string // gate ids in the order the operation passes them
 	pos      int      // index of the gate the actor is parked at (-1: not launched)
 	launched bool
+	parked   bool // launched during the set-up and waiting for input: its first segment ENDS at gate 0
+	taken    bool // ... and that first segment has been accounted for
+	free     bool // not gated
 	done     chan struct{}
 	finished bool
 	launch   func()
@@ -266,19 +281,21 @@ func replayPair(pc pairCase, dir string) *pairObs {
 	if _, err := c1.barrier(10 * time.Second); err != nil {
 		return fail("barrier: %v", err)
 	}
-	if st, _, err := nd.post("/pub?topic=t", []byte("m2")); err != nil || st != 200 {
-		return fail("pub m2")
-	}
-	// wait until m2 sits in the channel queue
-	for i := 0; ; i++ {
-		_, _, _, _, mem := nsqd.VerifChannelSnapshot(ch)
-		if mem == 1 {
-			break
+	if pc.Situation != "k2waiting" {
+		if st, _, err := nd.post("/pub?topic=t", []byte("m2")); err != nil || st != 200 {
+			return fail("pub m2")
 		}
-		if i > 2000 {
-			return fail("m2 did not reach the channel queue")
+		// wait until m2 sits in the channel queue
+		for i := 0; ; i++ {
+			_, _, _, _, mem := nsqd.VerifChannelSnapshot(ch)
+			if mem == 1 {
+				break
+			}
+			if i > 2000 {
+				return fail("m2 did not reach the channel queue")
+			}
+			time.Sleep(2 * time.Millisecond)
 		}
-		time.Sleep(2 * time.Millisecond)
 	}
 
 	exitReturned := make(chan struct{})
@@ -326,6 +343,17 @@ func replayPair(pc pairCase, dir string) *pairObs {
 					close(a.done)
 				}()
 			}
+		case "DELIVERQ":
+			// k2 is parked in its pump's receive with RDY 1 before anything else starts
+			a.gates = []string{gid("pump.afterRecv", k2), gid("sift.afterMapPush", k2), gid("pump.afterStart", k2)}
+			sinkMu.Lock()
+			w := make(chan struct{})
+			sentTo[k2] = w
+			sinkMu.Unlock()
+			a.parked = true
+			a.launched = true
+			a.launch = func() {}
+			go func() { <-w; close(a.done) }()
 		case "EXIT":
 			a.gates = []string{gid("chan.exit.flag", cname), gid("chan.exit.clientsClosed", cname), gid("chan.flush.afterMem", cname)}
 			// the operation modelled is the channel's Close (flag .. flush); nsqd.Exit itself returns only after
@@ -350,6 +378,34 @@ func replayPair(pc pairCase, dir string) *pairObs {
 		return a
 	}
 	actors := map[string]*actor{"A": mk(pc.OpA), "B": mk(pc.OpB)}
+	if pc.OpC != "" && pc.OpC != "NONE" {
+		actors["C"] = mk(pc.OpC)
+	}
+	for _, a := range actors {
+		if a.parked {
+			c2.cmd("RDY", "", "1")
+			if _, err := c2.barrier(10 * time.Second); err != nil {
+				return fail("barrier k2: %v", err)
+			}
+		}
+	}
+	for _, x := range pc.Free {
+		if a := actors[x]; a != nil {
+			a.free = true
+			for _, id := range a.gates {
+				g.release(id) // disarm
+			}
+		}
+	}
+	note := func(id string) {
+		for _, b := range actors {
+			for i, gg := range b.gates {
+				if gg == id {
+					b.pos = i
+				}
+			}
+		}
+	}
 
 	// step: run actor x for one segment: until it parks at its next gate or completes
 	step := func(x string) string {
@@ -357,7 +413,13 @@ func replayPair(pc pairCase, dir string) *pairObs {
 		if a.finished {
 			return "already finished"
 		}
-		if !a.launched {
+		if a.parked && !a.taken {
+			// its first segment (the receive) needs no release: it is over when the actor shows up at gate 0
+			a.taken = true
+			if a.pos >= 0 {
+				return ""
+			}
+		} else if !a.launched {
 			a.launched = true
 			a.launch()
 		} else {
@@ -367,14 +429,7 @@ func replayPair(pc pairCase, dir string) *pairObs {
 		for {
 			select {
 			case id := <-g.arrived:
-				// which actor parked?
-				for _, b := range actors {
-					for i, gg := range b.gates {
-						if gg == id {
-							b.pos = i
-						}
-					}
-				}
+				note(id) // which actor parked?
 				if a.pos >= 0 && a.gates[a.pos] == id {
 					return ""
 				}
@@ -387,6 +442,17 @@ func replayPair(pc pairCase, dir string) *pairObs {
 		}
 	}
 	for i, x := range pc.Sched {
+		for _, e := range pc.Early {
+			if e.After == i {
+				if b := actors[e.Actor]; b != nil && b.launched && !b.finished && b.pos >= 0 {
+					g.release(b.gates[b.pos]) // it runs up to the lock somebody else holds
+					time.Sleep(5 * time.Millisecond)
+				}
+			}
+		}
+		if a := actors[x]; a != nil && a.free {
+			continue
+		}
 		if msg := step(x); msg != "" {
 			obs.Blocked = fmt.Sprintf("step %d (%s): %s", i, x, msg)
 			if os.Getenv("VERIF_DUMP") != "" {
@@ -400,6 +466,22 @@ func replayPair(pc pairCase, dir string) *pairObs {
 	g.releaseAll()
 	// let both operations run to completion
 	for _, a := range actors {
+		if a.free {
+			a.finished = true // whatever it did shows in the settled outcome
+			continue
+		}
+		if a.parked && !a.taken && a.pos < 0 {
+			// nothing ever reached the parked receiver: it is still waiting, which is where NsqdCore leaves it
+			select {
+			case id := <-g.arrived:
+				note(id)
+			case <-time.After(50 * time.Millisecond):
+			}
+			if a.pos < 0 {
+				a.finished = true
+				continue
+			}
+		}
 		if a.launched && !a.finished {
 			select {
 			case <-a.done:
@@ -478,24 +560,48 @@ func replayPair(pc pairCase, dir string) *pairObs {
 		}
 		return obs
 	}
-	// ---- observe
-	obs.NIfm, obs.NHeap, _, _, _ = nsqd.VerifChannelSnapshot(ch)
-	if st, _, err := nd.stats(""); err == nil {
-		for _, ts := range st.Topics {
-			for _, cs := range ts.Channels {
-				obs.NQ = cs.Depth
-				obs.StatsIF = cs.InFlightCount
-				for _, k := range cs.Clients {
-					if k.ClientID == "k1" {
-						obs.Cnt1 = k.InFlightCount
-					}
-					if k.ClientID == "k2" {
-						obs.Cnt2 = k.InFlightCount
+	// ---- observe: two consecutive identical readings (the channel's structures and the connections' counters are
+	// updated by different goroutines; a reading taken while one of them is between the two is not an outcome)
+	read := func() [8]int64 {
+		var r [8]int64
+		nifm, nheap, _, _, _ := nsqd.VerifChannelSnapshot(ch)
+		own := nsqd.VerifInFlightOwners(ch)
+		r[0], r[1], r[2], r[3] = int64(nifm), int64(nheap), int64(own[k1]), int64(own[k2])
+		if st, _, err := nd.stats(""); err == nil {
+			for _, ts := range st.Topics {
+				for _, cs := range ts.Channels {
+					r[4] = cs.Depth
+					r[5] = cs.InFlightCount
+					for _, k := range cs.Clients {
+						if k.ClientID == "k1" {
+							r[6] = k.InFlightCount
+						}
+						if k.ClientID == "k2" {
+							r[7] = k.InFlightCount
+						}
 					}
 				}
 			}
 		}
+		return r
 	}
+	prev := read()
+	stable := false
+	for i := 0; i < 100; i++ {
+		time.Sleep(10 * time.Millisecond)
+		cur := read()
+		if cur == prev {
+			stable = true
+			break
+		}
+		prev = cur
+	}
+	if !stable {
+		obs.Incon = "the channel did not settle within 1s after both operations completed"
+		return obs
+	}
+	obs.NIfm, obs.NHeap, obs.NIfm1, obs.NIfm2 = int(prev[0]), int(prev[1]), int(prev[2]), int(prev[3])
+	obs.NQ, obs.StatsIF, obs.Cnt1, obs.Cnt2 = prev[4], prev[5], prev[6], prev[7]
 	// every message still in flight must have a deadline: force all timeouts and look again
 	c1.cmd("RDY", "", "0")
 	c2.cmd("RDY", "", "0")
